@@ -152,3 +152,67 @@ class GetContextArguments:
                           and implies(k in c2, result[k] == c2[k])
                           and implies(k in c1 and not (k in c2), result[k] == c1[k])
                           and implies(k in c0 and not (k in c1) and not (k in c2), result[k] == c0[k]))
+
+
+# ---- what the constructors hand to the context stack: the initial context exactly as given ---------------------------------
+# ("... else the method's default, and a command lacking a required one is rejected": an argument the caller's initial context
+#  leaves out must stay unset, so the controllers may neither add to nor drop from the dictionary they are given)
+
+def _mixin_init(E, obj, args, kwargs, st, node):
+    """ContextMixin.__init__(self, initial_context): the dictionary it is handed is recorded in the ghost g_base"""
+    s = st.copy()
+    s.env = dict(s.env)
+    s.env["g_base"] = args[0] if args else kwargs["initial_context"]
+    s.trace = ListV(s.trace.items + (("context_init",),))
+    return [(s, NONE, None)]
+
+
+def _same_map(a, b):
+    return forall_int(lambda k: ((k in a) == (k in b)) and implies(k in a, a[k] == b[k]))
+
+
+@contract("rig/machine_control/bmp_controller.py::BMPController.__init__@seq:0:1")
+class BMPControllerInitialContext:
+    properties = ("C18",)
+    params = dict(self=TRec("BMPController"), initial_context=ARGS, g_base=ARGS)
+    fragment_result = ()
+    fragment_head = "ContextMixin.__init__(self, initial_context)"
+    externals = {"ContextMixin.__init__": _mixin_init}
+    assumptions = ["ContextMixin.__init__ is external here (its own contract: ContextMixinInit); the dictionary it receives is the ghost g_base"]
+
+    def native(initial_context):
+        raise __import__("pyvc.replay", fromlist=["OutsideHarness"]).OutsideHarness()
+
+    def ensures_the_context_stack_starts_from_exactly_the_dictionary_given(initial_context, g_base_post, _trace):
+        return len(_trace) == 1 and _same_map(g_base_post, initial_context)
+
+
+@contract("rig/machine_control/machine_controller.py::MachineController.__init__@seq:0:1")
+class MachineControllerInitialContext:
+    properties = ("C18",)
+    params = dict(self=TRec("MachineController"), initial_context=ARGS, g_base=ARGS)
+    fragment_result = ()
+    fragment_head = "ContextMixin.__init__(self, initial_context)"
+    externals = {"ContextMixin.__init__": _mixin_init}
+    assumptions = BMPControllerInitialContext.assumptions
+
+    def native(initial_context):
+        raise __import__("pyvc.replay", fromlist=["OutsideHarness"]).OutsideHarness()
+
+    def ensures_the_context_stack_starts_from_exactly_the_dictionary_given(initial_context, g_base_post, _trace):
+        return len(_trace) == 1 and _same_map(g_base_post, initial_context)
+
+
+@contract("rig/utils/contexts.py::Context.__init__")
+class ContextInit:
+    properties = ("C18",)
+    params = dict(self=TRec("Context"), context_arguments=ARGS, stack=TOpt(TInt()))
+
+    def native(context_arguments):
+        raise __import__("pyvc.replay", fromlist=["OutsideHarness"]).OutsideHarness()
+
+    def ensures_holds_the_arguments_given_and_nothing_else(context_arguments, self_post):
+        return _same_map(self_post.context_arguments, context_arguments)
+
+    def ensures_no_close_functions_yet(self_post):
+        return seq_len(self_post._before_close) == 0
